@@ -1784,8 +1784,12 @@ class _AssociationDict(_AssociationCollection[_VT], MutableMapping[_KT, _VT]):
     ) -> Union[_VT, _T]: ...
 
     def pop(self, __key: _KT, /, *arg: Any, **kw: Any) -> Union[_VT, _T]:
-        member = self.col.pop(__key, *arg, **kw)
-        return self._get(member)
+        if __key not in self.col:
+            # absent key: hand back the caller's default (or raise
+            # KeyError) as dict.pop() does; the default is a plain value,
+            # not an association object, and must not go through the getter
+            return self.col.pop(__key, *arg, **kw)
+        return self._get(self.col.pop(__key))
 
     def popitem(self) -> Tuple[_KT, _VT]:
         item = self.col.popitem()
